@@ -269,3 +269,17 @@ s = open("src/gen_thorough.rs").read().replace("use crate::support::*;", "use cr
 open("src/gen_thorough.rs", "w").write(s)
 json.dump(listing, open("gen_molecule.json", "w"), indent=0)
 print(len([l for l in listing if l["tier"] == "quick"]), "quick,", len([l for l in listing if l["tier"] == "thorough"]), "thorough harnesses")
+
+
+# ---- native walker for replay: every accessor of every type, dispatch by type name (written to /verif/native/src/molwalk.rs)
+emitted = set()
+out = []
+for t in order:
+    gen_walk(t)
+walkers = "\n\n".join(out)
+arms = []
+for t in order:
+    arms.append(f'        "{t}" => match {rd(t)}::from_compatible_slice(bytes) {{ Ok(r) => {{ walk_{t}(r, bytes); 1 }} Err(_) => 0 }},')
+native = "// @generated by /verif/kani/molecule/gen.py from the molecule schema\n#![allow(unused, non_snake_case, clippy::all)]\nuse ckb_types::{packed, prelude::*};\n\nfn inside(part: &[u8], whole: &[u8]) -> bool {\n    let p = part.as_ptr() as usize;\n    let w = whole.as_ptr() as usize;\n    p >= w && p + part.len() <= w + whole.len()\n}\n\n" + walkers + "\n\n/// 1 = accepted by compatible decoding and every accessor ran; 0 = rejected. Panics propagate to the caller.\npub fn walk(ty: &str, bytes: &[u8]) -> u8 {\n    match ty {\n" + "\n".join(arms) + "\n        _ => panic!(\"unknown molecule type {ty}\"),\n    }\n}\n"
+open("/verif/native/src/molwalk.rs", "w").write(native)
+print("native walker for", len(order), "types")
